@@ -166,6 +166,12 @@ class Backfilling(TMGRSchedulingComponent):
 
                 info = self._pilots[pid]['info']
 
+                if not info:
+                    # we only know the state of that pilot, it was never added
+                    # to this scheduler - there is nothing to account for
+                    self._log.debug('upd task %s not handled', uid)
+                    continue
+
                 if uid in info['done']:
                     # we don't need further state udates
                     self._log.debug('upd task %s in done', uid)
